@@ -375,10 +375,11 @@ func (f *Func) reachTarget(
 			}
 		}
 
-		// If we're skipping because we have this value already, then
-		// note that we're using this input in the input set.
+		// If we have this value already there is nothing to do. We do not
+		// note it in the input set: it was either given directly, chosen as
+		// an input earlier (and noted then), or derived along a path whose
+		// own starting input was noted when that path was computed.
 		if skip {
-			state.InputSet[graph.VertexID(out)] = out
 			continue
 		}
 
